@@ -7,7 +7,9 @@
    (K)  harness/embed_c13.c: pthreads, 2-16 OS threads, each creating parent-less contexts, loading the standard
         environment and C-backed libraries, running differing workloads with collections, auditing the context's
         heaps for pointers that leave them, destroying the context; output per job == single-process baseline;
-        sequential cross-context probes; the same under ThreadSanitizer as the failing-input search for races."""
+        sequential cross-context probes; the same under ThreadSanitizer as the failing-input search for races.
+   (K inner, round 2) coq/C13/Res.v extracted (ocaml/C13_driver.ml) vs `embed_c13 ops`: process-wide OS resources (streams,
+        descriptors, dlopen references) operation by operation; differential search per library (harness/scenarios_c13.py)."""
 import os, re, subprocess, sys, json, shlex
 from vlib import build as B
 
@@ -359,7 +361,10 @@ def run(ctx):
                        "bignums, symbols+records, GC churn, continuations, eval/environments; parameters drawn per run), collected, heap-audited, "
                        "destroyed, and compared with the same workload run alone in its own process; distinct by (mode, thread count, "
                        "position, workload text); non-trivial when at least one other context was alive in the process (sequential "
-                       "predecessor or concurrent thread); plus the cross-context probes, one case each")
+                       "predecessor or concurrent thread); plus the cross-context probes, one case each; plus (round 2) resource scenarios: "
+                       "one case per operation of a random interleaving of creations (plain / documented standard ports / private dup'ed "
+                       "streams), opens, writes, imports, calls and destroys of 2-8 contexts, compared with the extracted model; plus the "
+                       "differential search: one case per export call of a library in two contexts with different prior state")
     d = ctx.build("nohooks")
     # ---------------------------------------------------------------- (G) inventory + (T) theorems
     table, stats, sos = c13_statics.regen(ctx, d)
@@ -383,8 +388,9 @@ def run(ctx):
                "(the two init flags are unsynchronised; first-use from several threads at once is outside the claim)")
     ctx.assume("no set-signal-action! (one signal number maps to one context process-wide, lib/chibi/signal.c) and no failing heap-image "
                "load/save (static message buffer gc_heap.c:10) in the isolated contexts; the executable main.c is not part of the claim")
-    ctx.assume("what the operating system shares between threads of one process (file descriptors, cwd, environment variables, "
-               "signal dispositions, the C library's own state) is outside the claim")
+    ctx.assume("of what the operating system shares between threads of one process, stdio streams / file descriptors and dlopen "
+               "references are inside the claim (model coq/C13/Res.v, ownership = the port's no_close flag); cwd, environment "
+               "variables, signal dispositions and the C library's own state stay outside")
 
     # ---------------------------------------------------------------- (K) harness
     emb = B.cc_embed(d, HARNESS, os.path.join(d, "embed_c13"))
@@ -424,7 +430,7 @@ def run(ctx):
         ctx.count(1, key=("base", works[i]), nontrivial=False)
     ctx.sample(dict(kind="baseline", workload=tname.get(0), text=works[0][:300], result=base.get(0, ("", "", ""))[2][:200]))
 
-    def compare(mode, nthreads, threads, rc, out, err, replay, spec):
+    def compare(mode, nthreads, threads, rc, out, err, replay, spec, delta=0):
         R = _parse_R(out)
         nbad = 0
         if rc == "timeout":
@@ -453,7 +459,7 @@ def run(ctx):
                     ctx.violation("output-differs:%s:%s" % (mode, tname[i]), input=works[i], expected=base[i][2][:500], observed=res[:500],
                                   threads=nthreads, thread=t, job=k, replay=replay, spec=spec)
                     nbad += 1
-                elif nobj != base[i][1]:
+                elif int(nobj) != int(base[i][1]) + delta:
                     ctx.violation("live-objects-differ:%s:%s" % (mode, tname[i]), input=works[i], expected=base[i][1], observed=nobj,
                                   threads=nthreads, thread=t, job=k, replay=replay, spec=spec)
                     nbad += 1
@@ -505,8 +511,15 @@ def run(ctx):
     for n, (T, jobs, sf) in enumerate(plans):
         th = schedule(T, jobs, sf)
         spec = _spec_text(works, th)
-        rc, out, err, rp = _run(emb, d, "run", spec, "conc%d" % n, timeout=240 if not ctx.thorough else 600)
-        compare("concurrent", T, th, rc, out, err, rp, spec)
+        # every second plan: contexts created exactly as doc/chibi.scrbl shows (standard ports on the host's streams,
+        # no_close = 1), destroyed concurrently; the host's descriptors 0 1 2 must survive
+        sp = n % 2 == 1
+        rc, out, err, rp = _run(emb, d, "run", spec, "conc%d" % n, extra_args=(["stdports"] if sp else []), timeout=240 if not ctx.thorough else 600)
+        compare("concurrent", T, th, rc, out, err, rp, spec, delta=3 if sp else 0)     # the three port objects
+        m = re.search(r"^S stdfds (\S+) (\d+)", out, re.M)
+        if rc == 0 and (m is None or m.group(1) != "ok"):
+            ctx.violation("resource:concurrent:std-stream-closed", input=spec, expected="descriptors 0 1 2 of the process unchanged after %d threads created and destroyed contexts" % T,
+                          observed=(m.group(0) if m else "no S line"), replay=rp, spec=spec)
         if n == 0:
             ctx.sample(dict(kind="concurrent", threads=T, jobs=[[tname[i] for i in t[2]] for t in th], first_line=out.split("\n")[0][:200]))
 
